@@ -2,6 +2,7 @@ import PdeVerif.Model.Grid
 import PdeVerif.Model.Volume
 import PdeVerif.Model.GridCoords
 import PdeVerif.Lemmas.Basic
+import PdeVerif.Lemmas.Grid
 import Mathlib.Algebra.BigOperators.Intervals
 import Mathlib.Algebra.BigOperators.Field
 import Mathlib.Algebra.Order.ToIntervalMod
@@ -26,8 +27,6 @@ variable {K : Type} [Field K] [LinearOrder K] [IsStrictOrderedRing K] [FloorRing
 
 /-! ### 1. discretisation: `dx = (hi - lo)/N`, centres at `lo + (i + 1/2) dx` -/
 
-theorem half_eq : (half : K) = 1 / 2 := by unfold half; push_cast; rfl
-
 /-- **C12** `dx = (x_max - x_min) / N` -/
 theorem dx_def (lo hi : K) (n : ℕ) : dx lo hi n = (hi - lo) / (n : K) := rfl
 
@@ -45,24 +44,6 @@ theorem centres_list (lo hi : K) (n : ℕ) :
   intro i h
   simp only [centreList, List.getElem_map, List.getElem_range]
   exact centres lo hi n i
-
-/-- the faces the volume code uses (`rs ± dr/2`) are the grid lines `lo + i dx` -/
-theorem cellLo_eq_face (lo hi : K) (n i : ℕ) : cellLo lo hi n i = face lo hi n i := by
-  unfold cellLo face centre; rw [half_eq]; ring
-
-theorem cellHi_eq_face (lo hi : K) (n i : ℕ) : cellHi lo hi n i = face lo hi n (i + 1) := by
-  unfold cellHi face centre; rw [half_eq]; push_cast; ring
-
-theorem face_zero (lo hi : K) (n : ℕ) : face lo hi n 0 = lo := by
-  unfold face; simp
-
-theorem face_last (lo hi : K) (n : ℕ) (hn : n ≠ 0) : face lo hi n n = hi := by
-  have : (n : K) ≠ 0 := Nat.cast_ne_zero.mpr hn
-  unfold face dx; field_simp; ring
-
-theorem dx_pos (lo hi : K) (n : ℕ) (h : lo < hi) (hn : n ≠ 0) : 0 < dx lo hi n := by
-  have : (0 : K) < n := Nat.cast_pos.mpr (Nat.pos_of_ne_zero hn)
-  unfold dx; exact div_pos (sub_pos.mpr h) this
 
 /-- the centre lies strictly inside its cell and cells are ordered -/
 theorem centre_in_cell (lo hi : K) (n i : ℕ) (h : lo < hi) (hn : n ≠ 0) :
@@ -112,30 +93,6 @@ theorem cuboidBounds_eq (lo hi : K) : cuboidBounds lo hi = (min lo hi, max lo hi
     rw [min_eq_left this, max_eq_right this]; ext <;> simp
 
 /-! ### 2. cell volumes, their sum, integration and projection -/
-
-theorem sumN_eq_sum (n : ℕ) (f : ℕ → K) : sumN n f = ∑ i ∈ Finset.range n, f i := by
-  induction n with
-  | zero => simp [sumN]
-  | succ n ih => rw [sumN, ih, Finset.sum_range_succ]
-
-theorem sumN_congr (n : ℕ) (f g : ℕ → K) (h : ∀ i < n, f i = g i) : sumN n f = sumN n g := by
-  rw [sumN_eq_sum, sumN_eq_sum]
-  exact Finset.sum_congr rfl fun i hi => h i (Finset.mem_range.mp hi)
-
-theorem sumN_mul (n : ℕ) (f : ℕ → K) (c : K) : sumN n (fun i => f i * c) = sumN n f * c := by
-  rw [sumN_eq_sum, sumN_eq_sum, Finset.sum_mul]
-
-theorem sumN_add (n : ℕ) (f g : ℕ → K) : sumN n (fun i => f i + g i) = sumN n f + sumN n g := by
-  rw [sumN_eq_sum, sumN_eq_sum, sumN_eq_sum, Finset.sum_add_distrib]
-
-theorem sumN_comm (n m : ℕ) (f : ℕ → ℕ → K) :
-    sumN n (fun i => sumN m (fun j => f i j)) = sumN m (fun j => sumN n (fun i => f i j)) := by
-  simp only [sumN_eq_sum]
-  exact Finset.sum_comm
-
-/-- telescoping sum -/
-theorem sumN_telescope (n : ℕ) (F : ℕ → K) : sumN n (fun i => F (i + 1) - F i) = F n - F 0 := by
-  rw [sumN_eq_sum, Finset.sum_range_sub]
 
 /-- the measure primitive of an axis: the exact measure of the part `[a, b]` of the axis (with the
 full range of the symmetric angles) is `prim b - prim a`.  Length for Cartesian axes and `z`,
